@@ -202,6 +202,26 @@ func (fc *FnCtx) fieldHooks(kind string, fa *ssa.FieldAddr, args []ssa.Value, in
 	}
 }
 
+// makeHooks runs `guard make <elem type>(n)` rules at a make([]T, n): this is how
+// "nothing is allocated for a declared length before it was checked" is stated.
+func (fc *FnCtx) makeHooks(in *ssa.MakeSlice, n Val, st *State) {
+	if len(fc.eng.cs.Hooks) == 0 {
+		return
+	}
+	et := in.Type().Underlying().(*types.Slice).Elem()
+	name := leafTypeName(et)
+	for _, h := range fc.eng.cs.Hooks {
+		if h.Kind != "make" || h.Pattern != name || !fc.hookActive(h) {
+			continue
+		}
+		env := fc.root().env(st, fc.root().old)
+		if len(h.Params) > 0 && h.Params[0] != "_" {
+			env.vars[h.Params[0]] = n
+		}
+		fc.applyHook(h, env, "make []"+name, in, st)
+	}
+}
+
 // fieldOfLoad: the FieldAddr a value was loaded from, if it is a direct field load.
 func fieldOfLoad(v ssa.Value) *ssa.FieldAddr {
 	if u, ok := v.(*ssa.UnOp); ok {
